@@ -39,7 +39,11 @@ Theorem C03_trexp_so3_total : forall w : V3 R, exists Rm, trexp_so3 Rops C03_thr
 Proof. intros w. apply trexp_so3_total; [exact C03_thr_ok | unfold C03_thr; cbn; lra]. Qed.
 Print Assumptions C03_trexp_so3_total.
 
-(* ---- (1) one-parameter-subgroup law of trexp on a unit twist: rotation block and translation block V(theta) ---- *)
+(* ---- (1) one-parameter-subgroup law of trexp on a unit twist: rotation block and translation block V(theta).
+        `_partial`: the full statement `trexp S = Sum_k [S]^k / k!` is NOT proved.  What is proved: this subgroup law, and (in
+        Props/C03_ode.v, C03_trexp_solves_exp_ode) that Phi(theta) = trexp(S, theta) is differentiable with Phi' = [S] Phi = Phi [S],
+        Phi(0) = I, i.e. Phi solves the initial value problem that defines exp(theta [S]).  Still missing: uniqueness of solutions
+        of a linear ODE (not in the library), hence "= power series" remains unproved. ---- *)
 Theorem C03_trexp_is_expm_partial : forall (tw : V6 R) (a b : R),
   (let '(_,_,_,w0,w1,w2) := tw in normsq3 Rops (w0,w1,w2) = 1) ->
   trexp_unit Rops C03_thr tw (a + b) = mmul44 Rops (trexp_unit Rops C03_thr tw a) (trexp_unit Rops C03_thr tw b)
